@@ -33,7 +33,10 @@ CONSTANTS Conns, MaxReq, NoConn,
 
 VARIABLES
   sd,          \* Shutdown: "no","stopset","lnclosed","ready","scan","closing","readopen","waiting","returned"
-  stop, lnOpen, serveRunning, doneClosed,
+  stop, lnOpen, serveRunning,
+  done,        \* s.done: "nil" | "open" | "closed"  (created by Serve when nil, closed by Shutdown, nil again
+               \*         after a Shutdown that returned nil)
+  doneFlag,    \* s.doneClosed: done was already closed by a Shutdown
   open,        \* s.open
   scanned,     \* connections visited in the current closeIdleConns round
   victim,      \* connection whose idle test succeeded and whose Close is pending (or NoConn)
@@ -52,13 +55,13 @@ VARIABLES
   lost         \* [Conns -> Nat] responses of started handlers that can no longer reach the client
 
 cvars == <<ph, mark, inmap, netClosed, cclosed, wire, buf, sent, nstart, unflushed, delivered, lost>>
-svars == <<sd, stop, lnOpen, doneClosed, scanned, victim>>
+svars == <<sd, stop, lnOpen, done, doneFlag, scanned, victim>>
 vars == <<svars, serveRunning, open, cvars>>
 
 ScanLock == sd \in {"scan", "closing"}     \* closeIdleConns holds idleConnsMu
 
 Init ==
-  /\ sd = "no" /\ stop = FALSE /\ lnOpen = TRUE /\ serveRunning = TRUE /\ doneClosed = FALSE
+  /\ sd = "no" /\ stop = FALSE /\ lnOpen = TRUE /\ serveRunning = TRUE /\ done = "open" /\ doneFlag = FALSE
   /\ open = 1 /\ scanned = {} /\ victim = NoConn
   /\ ph = [c \in Conns |-> "none"] /\ mark = [c \in Conns |-> "fresh"]
   /\ inmap = [c \in Conns |-> FALSE] /\ netClosed = [c \in Conns |-> FALSE] /\ cclosed = [c \in Conns |-> FALSE]
@@ -238,23 +241,26 @@ OpenDec(c) ==
 SetStop ==
   /\ sd = "no"
   /\ stop' = TRUE /\ sd' = "stopset"
-  /\ UNCHANGED <<lnOpen, doneClosed, scanned, victim, serveRunning, open, cvars>>
+  /\ UNCHANGED <<lnOpen, done, doneFlag, scanned, victim, serveRunning, open, cvars>>
 
 CloseListeners ==
   /\ sd = "stopset"
   /\ lnOpen' = FALSE /\ sd' = "lnclosed"
-  /\ UNCHANGED <<stop, doneClosed, scanned, victim, serveRunning, open, cvars>>
+  /\ UNCHANGED <<stop, done, doneFlag, scanned, victim, serveRunning, open, cvars>>
 
 CloseDone ==
   /\ sd = "lnclosed"
-  /\ doneClosed' = TRUE /\ sd' = "ready"
+  /\ IF done # "nil" /\ ~doneFlag
+     THEN done' = "closed" /\ doneFlag' = TRUE
+     ELSE UNCHANGED <<done, doneFlag>>
+  /\ sd' = "ready"
   /\ UNCHANGED <<stop, lnOpen, scanned, victim, serveRunning, open, cvars>>
 
 \* closeIdleConns: lock
 ScanBegin ==
   /\ sd \in {"ready", "waiting"}
   /\ sd' = "scan" /\ scanned' = {}
-  /\ UNCHANGED <<stop, lnOpen, doneClosed, victim, serveRunning, open, cvars>>
+  /\ UNCHANGED <<stop, lnOpen, done, doneFlag, victim, serveRunning, open, cvars>>
 
 \* one registered connection: the idle test (isIdle: what the code computed) ...
 ScanTestResult(c, isIdle) ==
@@ -264,7 +270,7 @@ ScanTestResult(c, isIdle) ==
      THEN /\ sd' = "closing" /\ victim' = c
           /\ mark' = [mark EXCEPT ![c] = IF AtomicIdleClose THEN "closing" ELSE @]
      ELSE UNCHANGED <<sd, victim, mark>>
-  /\ UNCHANGED <<stop, lnOpen, doneClosed, serveRunning, open, ph, inmap, netClosed, cclosed, wire, buf, sent, nstart,
+  /\ UNCHANGED <<stop, lnOpen, done, doneFlag, serveRunning, open, ph, inmap, netClosed, cclosed, wire, buf, sent, nstart,
                  unflushed, delivered, lost>>
 ScanTest(c) == ScanTestResult(c, mark[c] = "idle")
 
@@ -273,7 +279,7 @@ CloseIdle ==
   /\ sd = "closing"
   /\ netClosed' = [netClosed EXCEPT ![victim] = TRUE] /\ inmap' = [inmap EXCEPT ![victim] = FALSE]
   /\ sd' = "scan" /\ victim' = NoConn
-  /\ UNCHANGED <<stop, lnOpen, doneClosed, scanned, serveRunning, open, ph, mark, cclosed, wire, buf, sent, nstart,
+  /\ UNCHANGED <<stop, lnOpen, done, doneFlag, scanned, serveRunning, open, ph, mark, cclosed, wire, buf, sent, nstart,
                  unflushed, delivered, lost>>
 
 \* test and close of one visited connection as one step (trace validation: the repaired code logs
@@ -282,20 +288,36 @@ CloseIdleNow(c) ==
   /\ sd = "scan" /\ c \in scanned /\ inmap[c]
   /\ netClosed' = [netClosed EXCEPT ![c] = TRUE] /\ inmap' = [inmap EXCEPT ![c] = FALSE]
   /\ mark' = [mark EXCEPT ![c] = "closing"]
-  /\ UNCHANGED <<sd, victim, stop, lnOpen, doneClosed, scanned, serveRunning, open, ph, cclosed, wire, buf, sent, nstart,
+  /\ UNCHANGED <<sd, victim, stop, lnOpen, done, doneFlag, scanned, serveRunning, open, ph, cclosed, wire, buf, sent, nstart,
                  unflushed, delivered, lost>>
 
 \* unlock
 ScanEnd ==
   /\ sd = "scan" /\ \A c \in Conns : inmap[c] => c \in scanned
   /\ sd' = "readopen"
-  /\ UNCHANGED <<stop, lnOpen, doneClosed, scanned, victim, serveRunning, open, cvars>>
+  /\ UNCHANGED <<stop, lnOpen, done, doneFlag, scanned, victim, serveRunning, open, cvars>>
 
+\* open = 0: s.done = nil ; s.doneClosed = false ; return nil (the deferred stop.Store(0) runs)
 ReadOpenResult(zero) ==
   /\ sd = "readopen" /\ (zero => open = 0)
-  /\ sd' = IF zero THEN "returned" ELSE "waiting"
-  /\ UNCHANGED <<stop, lnOpen, doneClosed, scanned, victim, serveRunning, open, cvars>>
+  /\ IF zero THEN sd' = "returned" /\ done' = "nil" /\ doneFlag' = FALSE /\ stop' = FALSE
+             ELSE sd' = "waiting" /\ UNCHANGED <<done, doneFlag, stop>>
+  /\ UNCHANGED <<lnOpen, scanned, victim, serveRunning, open, cvars>>
 ReadOpen == ReadOpenResult(open = 0) /\ TRUE
+
+\* the Server is reused: Serve is called again with a new listener after a Shutdown that returned nil.
+\* Connection identities are recycled (every connection of the previous cycle has ended: ReturnedQuiet).
+ServeAgain ==
+  /\ sd = "returned"
+  /\ sd' = "no" /\ lnOpen' = TRUE /\ serveRunning' = TRUE /\ open' = open + 1
+  /\ done' = IF done = "nil" THEN "open" ELSE done
+  /\ scanned' = {} /\ victim' = NoConn
+  /\ ph' = [c \in Conns |-> "none"] /\ mark' = [c \in Conns |-> "fresh"]
+  /\ inmap' = [c \in Conns |-> FALSE] /\ netClosed' = [c \in Conns |-> FALSE] /\ cclosed' = [c \in Conns |-> FALSE]
+  /\ wire' = [c \in Conns |-> 0] /\ buf' = [c \in Conns |-> 0] /\ sent' = [c \in Conns |-> 0]
+  /\ nstart' = [c \in Conns |-> 0] /\ unflushed' = [c \in Conns |-> 0]
+  /\ delivered' = [c \in Conns |-> 0] /\ lost' = [c \in Conns |-> 0]
+  /\ UNCHANGED <<stop, doneFlag>>
 
 ConnStep(c) == \/ Register(c) \/ FirstByte(c) \/ ReadFail(c) \/ HandlerStart(c) \/ ReadAbort(c) \/ HandlerEnd(c) \/ WriteResp(c)
                \/ Flush(c) \/ FlushFail(c) \/ CloseBreak(c) \/ MarkIdle(c) \/ StopSeen(c) \/ StopFlush(c) \/ StopNoFlush(c)
@@ -306,7 +328,7 @@ ShutdownStep == \/ SetStop \/ CloseListeners \/ CloseDone \/ ScanBegin \/ (\E c 
 
 Next ==
   \/ \E c \in Conns : ClientSend(c, 1) \/ ClientSend(c, 2) \/ ClientClose(c) \/ AcceptMC(c) \/ Age(c) \/ ConnStep(c)
-  \/ ServeReturn \/ ShutdownStep
+  \/ ServeReturn \/ ShutdownStep \/ ServeAgain
 
 Spec == Init /\ [][Next]_vars
 
@@ -337,7 +359,8 @@ ReturnedAnswered == sd = "returned" => \A c \in Conns : nstart[c] = delivered[c]
 \* stronger, at any time: no response of a started handler is ever dropped
 NoLoss == \A c \in Conns : lost[c] = 0
 \* Done is closed (and stop set) before the first closeIdleConns round
-DoneClosed == sd \in {"ready", "scan", "closing", "readopen", "waiting", "returned"} => doneClosed /\ stop
+\* (in every serve / shutdown cycle of a reused Server)
+DoneClosed == sd \in {"ready", "scan", "closing", "readopen", "waiting"} => done = "closed" /\ stop
 \* a connection with a request in progress is never closed by closeIdleConns
 NoActiveClosed == \A c \in Conns : ~(netClosed[c] /\ ph[c] \in {"read", "handler", "respond", "written"})
 
